@@ -340,6 +340,8 @@ type tunnelServerStream struct {
 	sender     sender
 	receiver   receiver[tunnelpb.ClientToServerFrame]
 	halfClosed atomic.Pointer[errHolder]
+	// the error of the first call to finishStream: it is the outcome of the RPC
+	finished atomic.Pointer[errHolder]
 
 	// for reading frames from channel, to read message data
 	readMu  sync.Mutex
@@ -643,6 +645,9 @@ func (st *tunnelServerStream) serveStream(md interface{}, srv interface{}) {
 }
 
 func (st *tunnelServerStream) finishStream(err error) {
+	// The first caller decides the outcome, even if a concurrent caller (the
+	// handler returning because of the cancellation below) gets writeMu first.
+	st.finished.CompareAndSwap(nil, &errHolder{err})
 	st.cancel()
 	st.svr.removeStream(st.streamID)
 	st.halfClose(err)
@@ -654,6 +659,7 @@ func (st *tunnelServerStream) finishStream(err error) {
 		return
 	}
 
+	err = st.finished.Load().error
 	stat, _ := status.FromError(err)
 
 	headers := st.headers
